@@ -90,5 +90,56 @@ def run():
     return res
 
 
+def _audit(mods, thms, tag):
+    """-> (discharged, bad) for `#print axioms` of thms"""
+    src = "\n".join("import %s" % m for m in mods) + "\n" + "\n".join("#print axioms %s" % t for t in thms) + "\n"
+    path = os.path.join(LEAN, ".lake", "audit_%s.lean" % tag)
+    with open(path, "w") as f:
+        f.write(src)
+    p = subprocess.run(["lake", "env", "lean", path], cwd=LEAN, stdout=subprocess.PIPE, stderr=subprocess.STDOUT, timeout=1200)
+    flat = re.sub(r"\s+", " ", p.stdout.decode())
+    bad, ok = {}, 0
+    for t in thms:
+        m = re.search(r"'%s' depends on axioms: \[([^\]]*)\]" % re.escape(t), flat)
+        if m:
+            ax = [a.strip() for a in m.group(1).split(",") if a.strip()]
+        elif re.search(r"'%s' does not depend on any axioms" % re.escape(t), flat):
+            ax = []
+        else:
+            bad[t] = ["missing"]
+            continue
+        if [a for a in ax if a not in ALLOWED]:
+            bad[t] = ax
+        else:
+            ok += 1
+    return ok, bad
+
+
+def run_ws():
+    """the static tie of the validation layer: translate_ws.py regenerates GeneratedWs.lean from server_websocket.py;
+    Wormhole/Tie/WsReject.lean proves that the generated checks decide exactly as the model's `rejectText`"""
+    import translate_ws
+    spec = json.load(open(os.path.join(LEAN, "theorems.json")))["WSTIE"]
+    res = {"status": "tied", "theorems": len(spec["theorems"]), "discharged": 0, "detail": ""}
+    with open(os.path.join(LEAN, ".lake", "verif-build.lock"), "w") as lk:
+        fcntl.flock(lk, fcntl.LOCK_EX)
+        info = translate_ws.main()
+        if "error" in info:
+            res.update(status="untranslatable", detail=info["error"])
+            return res
+        res["checks_translated"] = info["handlers"]
+        res["regenerated"] = info["changed"]
+        ok, log = _lake(spec["modules"][0])
+        if not ok:
+            res["status"] = "broken"
+            res["detail"] = " | ".join([l for l in log.splitlines() if "error" in l][:4])[-1200:]
+            return res
+        res["discharged"], bad = _audit(spec["modules"], spec["theorems"], "WSTIE")
+        if bad:
+            res["status"] = "broken"
+            res["detail"] = "axioms: %s" % json.dumps(bad)[:600]
+    return res
+
+
 if __name__ == "__main__":
-    print(json.dumps(run(), indent=1))
+    print(json.dumps({"sql": run(), "ws": run_ws()}, indent=1))
